@@ -563,7 +563,9 @@ def run(c):
         "after a FAILED run the base class exposes the output of the failed solve (HomotopyMixin keeps no results "
         "cache); the results clause is checked for successful runs",
     ]
-    c.prove()
+    from .translate_c18 import gen_homotopy_step
+
+    c.prove(extra=gen_homotopy_step(c))  # + the loop of HomotopyMixin.optimize translated from the source
     cls = make_stub_class()
     run_batch(c, cls, CORPUS, "corpus")
     legacy_probe(c)
@@ -584,7 +586,9 @@ def run(c):
 
 def replay(c, rp):
     logging.getLogger("rtctools").setLevel(logging.CRITICAL)
-    c.prove()
+    from .translate_c18 import gen_homotopy_step
+
+    c.prove(extra=gen_homotopy_step(c))  # + the loop of HomotopyMixin.optimize translated from the source
     cls = make_stub_class()
     batch = []
     for f in rp.get("failures", []) + rp.get("correspondence_disagreements", []):
